@@ -2,7 +2,14 @@
 # C19 — what the high-level client owes its user, as monitors over one observed run (independent of `Model/`)
 
 The script is what the scripted panel sent (after the handlers were bound); the observation is what the
-harness saw: `Connect`'s result, the handler invocation log, acknowledges on the wire, the state getters.
+harness saw: `Connect`'s result, the handler invocation log, acknowledges on the wire, the state getters, whether
+the client ended the connection.
+
+Numbers: `initWindowMs` is the property's (2 s initialisation window; tied to the code's constant by
+`C19.init_window_is_the_documented_one`).  `settleMs` and `clockSlackMs` are harness tolerances and are named as such;
+both only make the monitor demand less.  What the script knows about the run (`preWindowMs`, `lossBound`) comes in
+through `Script`, from constants the extractor reads in the source.  There is no bound on how long dispatch may take:
+a stall shows as a log that stays short (`burst_stalled` / `invocation_missing`); slowness is a tag of the driver.
 -/
 namespace RawPanelVerif.Spec.Gorwp
 
@@ -136,7 +143,7 @@ inductive Item
   | topo (json svg : List Nat) (nHWc : Nat)
   | avail (kv : List (Nat × Nat))
   | broken (overLimit : Bool)   -- over-limit header (true) or truncated frame (false)
-  | wait
+  | wait (ms : Nat)             -- the panel sends nothing for `ms` milliseconds
   | bind (k : Kind) (id : Nat)  -- the user registers a handler at this point of the script
   deriving DecidableEq, Repr, Inhabited
 
@@ -149,11 +156,23 @@ def beforeBroken : List Item → List Item
 def hasBroken (h : List Item) : Bool := h.any (fun i => match i with | .broken _ => true | _ => false)
 def firstBrokenIsOverLimit (h : List Item) : Bool := (h.find? (fun i => match i with | .broken _ => true | _ => false)) = some (.broken true)
 
-/-- split at the last pause: `(before, after)`; no pause → everything is "after" -/
-def splitLastWait (h : List Item) : List Item × List Item :=
+/-- HARNESS TOLERANCE, not a number of the property: a pause of the panel of at least this many milliseconds counts as
+long enough for everything sent before it to have been dispatched (the scripts pause 300 ms before a broken frame).
+It is used only for the allowance around an over-limit frame below; a larger value demands LESS. -/
+def settleMs : Nat := 250
+
+def Item.settles : Item → Bool
+  | .wait ms => decide (settleMs ≤ ms)
+  | _ => false
+
+/-- split at the last settling pause: `(before, after)`; none → everything is "after" -/
+def splitLastSettle (h : List Item) : List Item × List Item :=
   let r := h.reverse
-  let after := (r.takeWhile (· ≠ .wait)).reverse
+  let after := (r.takeWhile (fun i => !i.settles)).reverse
   (h.take (h.length - after.length), after)
+
+/-- how many events a stretch of a run contains -/
+def eventCount (d : List SDyn) : Nat := (d.filter (fun i => match i with | .event _ => true | _ => false)).length
 
 def eventsOf (h : List Item) : List SEvent := h.filterMap (fun i => match i with | .event e => some e | _ => none)
 /-- events and registrations of a script, in order -/
@@ -211,47 +230,88 @@ structure Obs where
   tlast : Nat := 0
   dataRaces : Nat := 0
   bindRace : Bool := false
+  closed : Bool := false  -- the panel saw the client end the connection while the script was still running
   deriving Repr, Inhabited
 
 structure Script where
   ascii : Bool := false
-  initItems : List Item := []     -- what the panel answered to the initial request within the 2 s window
+  /-- a lower bound, in ms, of the time between the call of `Connect` and the start of the initialisation window (the
+  request leaving): script knowledge, e.g. the scripted ASCII panel leaves the mode probe unanswered, so the detector's
+  whole probe deadline passes first.  0 = nothing known. -/
+  preWindowMs : Nat := 0
+  initItems : List Item := []     -- what the panel answered to the initial request within the initialisation window
   initEnded : Bool := false       -- the connection ended inside the window (closed by the panel / broken frame): nothing more can arrive
   bind : SBindings := {}
   feedback : Bool := false
   hist : List Item := []
+  /-- how many of the events sent right before an over-limit frame (no settling pause in between) the client may still
+  hold undispatched when that frame ends the connection: the capacity of its incoming queue, in events.  `none` = not known. -/
+  lossBound : Option Nat := none
   deriving Repr, Inhabited
 
+/-- THE INITIALISATION WINDOW of the property ("connecting succeeds exactly when … arrive within the initialisation
+window"): the property's anchors and the package documentation give it as "2 s initialisation wait".  The constant the
+code uses (`time.After(2 * time.Second)` in `init`) is tied to this number by `C19.init_window_is_the_documented_one`. -/
 def initWindowMs : Nat := 2000
-def probeMs : Nat := 2000
-def burstBoundMs : Nat := 5000
+
+/-- clock granularity: `tconn` is a whole number of milliseconds -/
+def clockSlackMs : Nat := 5
+
+/-- all four items were sent AND the connection ended inside the window (the panel closed right after its answer): whether
+they "arrived" before the end is a race the property does not decide — either result of `Connect` is accepted -/
+def undecided (sc : Script) : Bool := sc.initEnded && allFourArrived sc.initItems
+
+/-- The allowance around a broken frame.  A broken frame ends the connection and the client shuts down at once.
+* truncated frame: the reader gives up only when its payload deadline has passed — seconds after everything before the
+  frame arrived — so EVERYTHING before it is demanded;
+* over-limit header: messages that arrived immediately before it (no settling pause in between) may still be queued
+  and are then dropped.  They are allowed, not demanded — but no more of them may be missing than the client can hold
+  (`lossBound`), and everything up to the last settling pause is demanded.
+Result: the demanded part and the allowed part of the run before the broken frame. -/
+def brokenSplit (sc : Script) : List SDyn × List SDyn :=
+  let h := beforeBroken sc.hist
+  if !hasBroken sc.hist then (dynOf h, [])
+  else if firstBrokenIsOverLimit sc.hist then let (req, opt) := splitLastSettle h; (dynOf req, dynOf opt)
+  else (dynOf h, [])
+
+/-- may the last `rest` (a suffix of the allowed part) be missing? -/
+def lossAllowed (sc : Script) (rest : List SDyn) : Bool :=
+  match sc.lossBound with
+  | some n => decide (eventCount rest ≤ n)
+  | none => true
+
+/-- the lengths `k` of the allowed part for which "demanded part + first `k` allowed items" explains the log exactly -/
+def acceptedSplits (sc : Script) (inv : List SInv) : List Nat :=
+  let (req, opt) := brokenSplit sc
+  (List.range (opt.length + 1)).filter (fun k =>
+    lossAllowed sc (opt.drop k) && checkLogDyn sc.bind (req ++ opt.take k) inv == .ok)
+
+/-- for reports: `some missing` when the log was accepted although `missing` allowed events were not dispatched -/
+def prefixAccepted (sc : Script) (inv : List SInv) : Option Nat :=
+  let (_, opt) := brokenSplit sc
+  match (acceptedSplits sc inv).reverse with
+  | k :: _ => if k < opt.length then some (eventCount (opt.drop k)) else none
+  | [] => none
 
 def check (sc : Script) (o : Obs) : Option String :=
-  -- all four items were sent AND the connection ended inside the window (the panel closed right after its answer): whether
-  -- they "arrived" before the end is a race the property does not decide — either result is accepted
-  let undecided := sc.initEnded && allFourArrived sc.initItems
-  match (if undecided then none else connectResult sc.initItems o.initOk) with
+  match (if undecided sc then none else connectResult sc.initItems o.initOk) with
   | some c => some c
   | none =>
   if !o.initOk then
     -- the error must not come before the window has passed, while the missing items could still arrive
-    if !sc.initEnded && o.tconn + 5 < initWindowMs + (if sc.ascii then probeMs else 0) then some "connect_error_before_window" else none
+    if !sc.initEnded && o.tconn + clockSlackMs < sc.preWindowMs + initWindowMs then some "connect_error_before_window" else none
   else
     let h := beforeBroken sc.hist
     let all := sc.initItems ++ h
-    -- A broken frame ends the connection and the client shuts down at once: messages that arrived immediately before
-    -- it (no pause in between) may still be queued and are then dropped.  They are allowed, not demanded (timing
-    -- tolerance); everything up to the last pause before the broken frame is demanded.
-    let (req, opt) := if hasBroken sc.hist then splitLastWait h else (h, [])
-    let optEv := dynOf opt
-    let verdicts := (List.range (optEv.length + 1)).map (fun k => checkLogDyn sc.bind (dynOf req ++ optEv.take k) o.inv)
-    let verdict := if verdicts.any (· = .ok) then LogVerdict.ok else checkLogDyn sc.bind (dynOf h) o.inv
+    let verdict := if !(acceptedSplits sc o.inv).isEmpty then LogVerdict.ok else checkLogDyn sc.bind (dynOf h) o.inv
     match verdict with
     | .extra => some (if hasBroken sc.hist then (if firstBrokenIsOverLimit sc.hist then "invocation_after_broken_frame" else "invocation_after_truncated_frame") else "invocation_unexpected")
     | .mismatch => some "invocation_mismatch"
     | .short => some (if sc.feedback then "burst_stalled" else "invocation_missing")
     | .ok =>
       if hasBroken sc.hist then none   -- state / acks at the moment of a forced shutdown are not compared
+      -- STAYS LIVE: nothing broken or over-limit was received, yet the client ended the connection
+      else if o.closed then some "connection_dropped_without_cause"
       else if o.acks ≠ pingCount h then some "ack_count"
       else if o.model ≠ lastNonEmpty [] (models all) then some "getter_model"
       else if o.serial ≠ lastNonEmpty [] (serials all) then some "getter_serial"
@@ -263,7 +323,6 @@ def check (sc : Script) (o : Obs) : Option String :=
       else if o.tg ≠ o.tf then some "getter_topology_not_latest"
       else if (availEntries all).any (fun (k, _) => (o.av.find? (·.1 = k)).map (·.2) ≠ lastValue k (availEntries all)) then some "state_availability"
       else if o.av.any (fun (k, _) => lastValue k (availEntries all) = none) then some "state_availability"
-      else if o.tlast > burstBoundMs then some "burst_slow"
       else if o.bindRace then some "bind_race_detected"
       else none
 
